@@ -544,3 +544,12 @@ def zero_angle_in_3space(case):
 
 
 PREDICATES = {"zero_angle_in_3space": zero_angle_in_3space}
+
+
+# ------------------------------------------------------------------------------------------- equivalent ways of asking
+from .. import forms as _forms  # noqa: E402
+
+LAWS.append(
+    Law("call_forms", lambda tier: _forms.call_forms_strategy("C09")(tier), _forms.run_call_forms("C09"), lambda c: True, lambda c: [c["entry"], f"d{c['d']}"], {"quick": 500, "thorough": 6000},
+        "the same question asked in several ways (positional / keyword arguments, method / function / operator form, symmetric argument orders) on the objects of the shared pool: same answer", shard=250)
+)
